@@ -7,8 +7,13 @@
 #ifndef C08_STOULL_MODEL_H
 #define C08_STOULL_MODEL_H
 #include "../common.h"
+#ifndef VERIF_STR_DEFINED
+#define VERIF_STR_DEFINED
 typedef struct verif_str { const char *p; size_t n; } verif_str;
+#endif
+#ifndef VERIF_MKSTR
 #define VERIF_MKSTR(p, n) ((verif_str){(p), (n)})
+#endif
 #define EXC_RUNTIME_ERROR 2
 #define EXC_OUT_OF_RANGE 3
 #define EXC_INVALID_ARGUMENT 4
